@@ -13,16 +13,57 @@ def _clf(classes, seed):
     return ParzenWindowClassifier(classes=list(classes), random_state=seed)
 
 
+_TABLE = None
+
+
+def _table_clf():
+    """Scripted classifier: probabilities are a fixed function of the feature vector taking few
+    values - one-hot for most points, fractional for some - so that exact ties, exact zeros and
+    'only a few uncertain candidates' are reached deterministically."""
+    global _TABLE
+    if _TABLE is None:
+        from skactiveml.base import SkactivemlClassifier
+
+        class TableClf(SkactivemlClassifier):
+            def __init__(self, salt=0, classes=None, missing_label=np.nan, cost_matrix=None, random_state=None):
+                super().__init__(classes=classes, missing_label=missing_label, cost_matrix=cost_matrix, random_state=random_state)
+                self.salt = salt
+
+            def fit(self, X, y, sample_weight=None):
+                self._validate_data(X, y, sample_weight)
+                return self
+
+            def predict_proba(self, X):
+                X = np.asarray(X, dtype=float)
+                K = len(self.classes_)
+                P = np.zeros((len(X), K))
+                for i, x in enumerate(X):
+                    h = int(abs(np.floor(x.sum() * 3 + self.salt))) % 7
+                    c = h % K
+                    if h < 5:
+                        P[i, c] = 1.0
+                    elif h == 5:
+                        P[i] = 1.0 / K
+                    else:
+                        P[i, c] = 0.75
+                        P[i, (c + 1) % K] += 0.25
+                return P
+        _TABLE = TableClf
+    return _TABLE
+
+
 def _clf_alt(classes, seed):
     """Classifier variants for strategies that only need predict_proba: smooth (Parzen window),
     one-hot (decision tree, 1-NN) probabilities -> exact ties and zeros."""
     from sklearn.neighbors import KNeighborsClassifier
     from sklearn.tree import DecisionTreeClassifier
     from skactiveml.classifier import SklearnClassifier
-    if seed % 3 == 1:
+    if seed % 8 == 2:
         return SklearnClassifier(DecisionTreeClassifier(random_state=seed), classes=list(classes), random_state=seed)
-    if seed % 3 == 2:
+    if seed % 8 == 3:
         return SklearnClassifier(KNeighborsClassifier(n_neighbors=1), classes=list(classes), random_state=seed)
+    if seed % 8 >= 4:
+        return _table_clf()(salt=seed, classes=list(classes), random_state=seed)
     return _clf(classes, seed)
 
 
